@@ -34,6 +34,7 @@ var c06Programs = []string{
 	"i = 0; s = 0; while i < 3 { s = s + d6; i = i + 1 }; s", "d6 > 3 ? d20 : d4", "if d6 > 3 { x = d20 } else { x = d4 }; x", "{'a': d6, 'b': d6}.a", "[2d6, 2d6]kh", "ceil(d6 / 2.0)", "d(d6)", "(d4)d(d6)k(d2)",
 	"2c5 + 2a6 + f + b", "[3a9, 2c9, f, p]", "^stA:d6", "^st&A=d6 B:d6",
 	"func g(){ [1,2,3,4].shuffle() }; g()", "func g(){ [1,2,3,4].rand() + [5,6,7].randSize(2)[0] }; g() + g()", "&c = [1,2,3,4].shuffle(); c", "func g(){ &k = [1,2,3].rand(); k + k }; g()", "`{[1,2,3,4].rand()}`",
+	"[1..40].randSize(4)", "[1..16].randSize(2)", "[1..64].randSize(16)", "x = [1..100].randSize(25); [x[0], x[24]]", "[1..300].shuffle()[0:5]",
 }
 
 var c06Stmts = []string{"x = 2d6", "y = [1,2,3,4].shuffle()", "z = 1 + 3d6k2", "func g(){ d20 }; w = g()", "&c = d6; v = c + c", "u = 2c8 + 2a9", "t = [1,2,3].rand()", "s = `{d6}{f}`", "r = b2 + p"}
@@ -77,6 +78,15 @@ func c06Enumerate(tier string, seed int64, emit func(string, any)) {
 			}
 			if (i+j)%3 == 0 {
 				emit("lifecycle", c06Case{Kind: "lifecycle", Stmts: []string{c06Stmts[i], c06Stmts[j], c06Stmts[(i+j)%len(c06Stmts)]}, Seed: -1})
+			}
+		}
+	}
+	// one and the same value OBJECT (a host-side variable store outlives the VMs) evaluated first by another context, then by the
+	// seeded context under test: its dice come from the context that evaluates it
+	for _, body := range []string{"d100", "2d6 + d20", "[1,2,3,4].shuffle()", "[1,2,3,4,5].rand() + d6", "f + b + 2a9", "func q(){ d20 }; q() + d6"} {
+		for _, first := range []int64{0, 41} { // the first context: unseeded, or seeded differently
+			for _, sd := range seeds[:2] {
+				emit("shared value object", c06Case{Kind: "shared", Src: body, Seed: sd, Dev: int(first)})
 			}
 		}
 	}
@@ -293,6 +303,41 @@ func c06Run(raw json.RawMessage) harn.Result {
 		res.Stats["executions"] += st.Runs
 		res.Stats["executions_with_placements_cut_at_bound"] += st.Forced
 		res.Sample = fmt.Sprintf("%q seed %d: %d placements of <=%d interfering actions, %d draws", c.Src, c.Seed, st.Runs, c.Dev, base.draws)
+	case "shared":
+		mk := func() (*ds.VMValue, *ds.VMValue) {
+			return ds.NewComputedVal(c.Src), ds.NewFunctionValRaw(&ds.FunctionData{Expr: c.Src, Name: "sfn"})
+		}
+		use := "[sv, sfn(), sv]"
+		// reference: fresh objects, evaluated by the seeded context only
+		ref := c06NewVM(c, append([]byte{}, seedBytes...))
+		rv, rf := mk()
+		ref.Attrs.Store("sv", rv)
+		ref.Attrs.Store("sfn", rf)
+		want := c06Eval(c, ref, use, nil)
+		// the same objects evaluated by another context first (twice: compiled lazily, then from the compiled form)
+		sv, sfn := mk()
+		var other *ds.Context
+		if c.Dev == 0 {
+			other = drv.NewVM(drv.AllOn())
+		} else {
+			other = c06NewVM(c, drv.SeedBytes(int64(c.Dev)))
+		}
+		other.Attrs.Store("sv", sv)
+		other.Attrs.Store("sfn", sfn)
+		_ = other.Run(use)
+		_ = other.Run(use)
+		y := c06NewVM(c, append([]byte{}, seedBytes...))
+		y.Attrs.Store("sv", sv)
+		y.Attrs.Store("sfn", sfn)
+		got := c06Eval(c, y, use, nil)
+		if !got.same(want) {
+			viol("C06:shared-value-object-carries-a-generator", fmt.Sprintf("a computed value / function object with the body %q was evaluated by another context first; the seeded context then gets %s, with fresh objects it gets %s", c.Src, got, want))
+		}
+		if got.foreign != "" {
+			viol("C06:foreign-source", fmt.Sprintf("%q seed %d: %s", c.Src, c.Seed, got.foreign))
+		}
+		res.Stats["executions"] += 4
+		res.Sample = fmt.Sprintf("shared value object %q", c.Src)
 	case "lifecycle":
 		p1, p2, p3 := c.Stmts[0], c.Stmts[1], c.Stmts[2]
 		seed2 := drv.SeedBytes(c.Seed + 100)
